@@ -85,6 +85,25 @@ pub fn world_strategy(g: GenCfg, name: String) -> impl Strategy<Value = WorldDec
     (1..=g.max_archs)
         .prop_flat_map(move |n| (0..n).map(|i| arch_strategy(g, arch_name(i))).collect::<Vec<_>>())
         .prop_map(move |archs| WorldDecl { name: name.clone(), archs, pool: POOL.iter().map(|s| s.to_string()).collect() })
+        // one declaration in six (when explicit ids are generated at all) uses a permutation of
+        // 0..N as its archetype ids: a dense id space in which position and id still differ
+        .prop_flat_map(move |w| {
+            let n = w.archs.len() as u32;
+            (Just(w), 0u8..6, Just((0..n).collect::<Vec<u32>>()).prop_shuffle(), any::<u8>())
+        })
+        .prop_map(move |(mut w, sel, perm, drop_one)| {
+            if g.ids != 0 && sel == 0 && w.archs.len() > 1 {
+                for (a, p) in w.archs.iter_mut().zip(perm.iter()) {
+                    a.id = Some(*p);
+                }
+                // sometimes leave one id implicit where the rule yields the same value anyway
+                let k = drop_one as usize % w.archs.len();
+                if k > 0 && perm[k] == perm[k - 1] + 1 {
+                    w.archs[k].id = None;
+                }
+            }
+            w
+        })
 }
 
 fn comp_name_strategy() -> impl Strategy<Value = String> {
